@@ -25,6 +25,11 @@ pub fn gen(seed: u64, tier: Tier) -> ScenarioSpec {
             f.present = 0;
         }
     }
+    // what the per-port slots of an unoccupied port hold is nobody's business (undecodable text included):
+    // the block is kept as bytes and must come back as bytes
+    if rng.chance(1, 6) {
+        rec.empty_garbage = true;
+    }
     let len = gen::approx_len(&rec);
     let mut spec = gen::base_spec(P, "S1", seed, rec);
     spec.stream = gen::gen_stream(&mut rng, len, true);
